@@ -226,8 +226,10 @@ class MTSPEnv(RL4COEnvBase):
 
         # With distance, same as TSP
         elif self.cost_type == "sum":
-            locs = td["locs"]
-            locs_ordered = locs.gather(1, actions.unsqueeze(-1).expand_as(locs))
+            # Tours start and end at the depot (node 0): prepend it, so that the total length of all
+            # subtours is measured for action sequences of any length (incl. trailing depot padding)
+            depot = torch.zeros_like(actions[:, :1])
+            locs_ordered = gather_by_index(td["locs"], torch.cat([depot, actions], 1))
             return -get_tour_length(locs_ordered)
 
         else:
